@@ -4,6 +4,7 @@ package verifier
 
 import (
 	"bytes"
+	"math/big"
 
 	"github.com/zenon-network/go-zenon/chain/nom"
 	"github.com/zenon-network/go-zenon/common"
@@ -124,4 +125,44 @@ func VerifC13MomentumHashCoversFields() {
 	for i := 0; i < 2; i++ {
 		verifAssert(*m1.Content[i] == *m2.Content[i], "hash pins the content, header by header in order")
 	}
+}
+
+// VerifC13DescendantPinned: a contract receive block that is fully accepted with one descendant block, and a variant
+// that carries the same parent fields and the same descendant hash field but arbitrary descendant content.  If the
+// variant is acceptable too, its descendant agrees with the original on every field the descendant's hash covers
+// (destination, token, amount: defect F13, repaired) — the fields outside the descendant's hash (changes hash, plasma
+// fields) are neither recomputed nor compared and end up in the stored bytes (known finding F9c).
+func VerifC13DescendantPinned() {
+	b1 := c03Block("b1", 0)
+	if len(b1.DescendantBlocks) != 1 {
+		return
+	}
+	verifAssume(b1.BlockType == nom.BlockTypeContractReceive && b1.Address[0] == types.ContractAddrByte, "only contract receives are accepted with descendants (C03)")
+	c := c03Env(b1)
+	av := &accountVerifier{chain: c}
+	if !c13Accept(av, b1) {
+		return
+	}
+	d1 := b1.DescendantBlocks[0]
+	b2 := *b1
+	d2 := *d1
+	d2.ToAddress = c03Addr("d2.ToAddress")
+	d2.Amount = new(big.Int).SetBytes(verifNondetBytes("d2.Amount", 32))
+	copy(d2.TokenStandard[:], verifNondetBytes("d2.ZTS", 10))
+	d2.ChangesHash = c03Hash("d2.ChangesHash")
+	d2.BasePlasma = verifNondetU64("d2.BasePlasma")
+	d2.TotalPlasma = verifNondetU64("d2.TotalPlasma")
+	b2.DescendantBlocks = []*nom.AccountBlock{&d2}
+	err, _ := c03Run(func() error { return av.AccountBlock(&b2) })
+	if err != nil {
+		return
+	}
+	err, _ = c03Run(func() error { return av.AccountBlockTransaction(&nom.AccountBlockTransaction{Block: &b2}) })
+	if err != nil {
+		verifReach("variant rejected", true)
+		return
+	}
+	verifReach("variant accepted too", true)
+	verifAssert(d1.ToAddress == d2.ToAddress && d1.TokenStandard == d2.TokenStandard && bytes.Equal(common.BigIntToBytes(d1.Amount), common.BigIntToBytes(d2.Amount)), "an acceptable variant's descendant has the same destination, token and amount")
+	verifAssertKnown(d1.ChangesHash == d2.ChangesHash && d1.BasePlasma == d2.BasePlasma && d1.TotalPlasma == d2.TotalPlasma, "stored changes hash / plasma fields of a descendant block are pinned by verification", true, "C13-F9c")
 }
